@@ -341,14 +341,22 @@ func restoredFieldsRule(P *Program, R *Report) {
 		if fn == nil {
 			continue
 		}
-		for _, c := range callsIn(fn) {
-			if isCallTo(c, kProofDVWC) {
-				r := (&MustPass{P: P, Match: func(a Atom) bool {
-					cc, idx := callAndResult(a.V)
-					return cc != nil && calleeIs(cc, kProofDCC) && idx == 1 && a.Want == Nil
-				}}).MustReach(fn, c)
-				R.decide(rule, k+":contribution-before-verify", "VerifyWithChallenge runs only after ChallengeContribution (which restores the derived fields) succeeded", r.Holds, r.Path, P.Pos(c.Pos()))
+		// (in the entry point itself or in the unexported helper its body was moved into, seen with the proof bound)
+		found := false
+		deepVisit(P, fn, 2, func(g *ssa.Function) {
+			for _, c := range callsIn(g) {
+				if isCallTo(c, kProofDVWC) {
+					found = true
+					r := (&MustPass{P: P, Match: func(a Atom) bool {
+						cc, idx := callAndResult(a.V)
+						return cc != nil && isCallTo(cc, kProofDCC) && idx == 1 && a.Want == Nil
+					}}).MustReach(g, c)
+					R.decide(rule, k+":contribution-before-verify", "VerifyWithChallenge runs only after ChallengeContribution (which restores the derived fields) succeeded", r.Holds, r.Path, P.Pos(c.Pos()))
+				}
 			}
+		})
+		if !found {
+			R.bad(rule, k+":contribution-before-verify", "VerifyWithChallenge runs only after ChallengeContribution (which restores the derived fields) succeeded", "no call of ProofD.VerifyWithChallenge found in Verify or its helpers", P.Pos(fn.Pos()))
 		}
 	}
 	// the accumulator cache is written only by UnmarshalVerify and Sign; readers on verifier paths take UnmarshalVerify's result
